@@ -16,6 +16,14 @@
 (*              kind pk ("clone" "closure" "pred" "next" "drop")           *)
 (* and the specification says precisely which ids are dropped by it.       *)
 (*                                                                         *)
+(* Iterators (drain, extract_if, splice, into_iter) borrow or consume     *)
+(* their container, so nothing else can happen to it while they live: an   *)
+(* iterator is therefore ONE action whose parameters say how it is         *)
+(* consumed (nf items from the front, nb from the back, number of next()   *)
+(* calls) and how it ends (drop | mem::forget | keep_rest); the yielded    *)
+(* ids go to the caller, the action defines what happens to the rest.      *)
+(* Values returned to the caller stay in `held` until the closing phase.   *)
+(*                                                                         *)
 (* MutBumpVecRev is read through the mirror mapping: its model sequence is *)
 (* the reverse of its slice, so push/pop/truncate/extend act at the END of *)
 (* the model sequence exactly as for the other vectors.  Whenever a value  *)
@@ -97,7 +105,6 @@ Live(i)   == cs[i].k # "-"
 LiveSlots == {i \in Slots : Live(i)}
 FreeSlots == {i \in Slots : ~Live(i)}
 LowFree   == CHOOSE i \in FreeSlots : \A j \in FreeSlots : i <= j
-SecondFree == CHOOSE i \in FreeSlots \ {LowFree} : \A j \in FreeSlots \ {LowFree} : i <= j
 
 Growable == {"F", "V", "M", "R"}       \* push insert resize extend append reserve
 SliceAlg == {"B", "F", "V", "M"}       \* retain dedup drain extract_if map_in_place (BumpBox<[T]> algorithms)
@@ -554,7 +561,8 @@ Splice ==
                             yl == Take(rng, nf)  rest == DropN(rng, nf)
                             nv == Take(v, a) \o f \o DropN(v, b)
                         IN
-                        \E p \in NoInj \cup Inj("drop", Len(rest)) :
+                        \* the replacement iterator's next() is called m+1 times (the last call returns None)
+                        \E p \in NoInj \cup Inj("drop", Len(rest)) \cup Inj("next", m + 1) :
                             Commit([op |-> "splice", c |-> c, i |-> a, j |-> b, xs |-> f, ps |-> <<nf>>, s |-> hint,
                                     pk |-> p[1], pn |-> p[2]] @@ S0,
                                    IF p[1] = "drop"
@@ -562,6 +570,15 @@ Splice ==
                                         \* pulled from the iterator; Drain's guard closes the gap
                                         [out |-> "inj", lossy |-> TRUE, cs |-> Put(c, [C EXCEPT !.v = Take(v, a) \o DropN(v, b)]),
                                          ret |-> yl, hl |-> Range(yl), dr |-> rest, nf |-> m] @@ E0
+                                   ELSE IF p[1] = "next"
+                                   THEN \* the removed range is gone; the items produced so far were written into the gap /
+                                        \* behind it (Drain's guard moves the tail behind them); with a size hint of 0 the
+                                        \* items beyond the gap sit in a temporary vector that the unwinding drops
+                                        LET pre == Take(f, p[2] - 1)
+                                            inv == IF DropN(v, b) = <<>> \/ hint = "exact" THEN pre ELSE Take(pre, Min(p[2] - 1, b - a))
+                                            lost == DropN(pre, Len(inv)) IN
+                                        [out |-> "inj", cs |-> Put(c, GrownTo(C, Take(v, a) \o inv \o DropN(v, b), Max(n, n - (b - a) + m))),
+                                         ret |-> yl, hl |-> Range(yl), dr |-> rest \o lost, cr |-> Range(pre), nf |-> m] @@ E0
                                    ELSE [cs |-> Put(c, Grown(C, nv)), ret |-> yl, hl |-> Range(yl), dr |-> rest,
                                          cr |-> Range(f), nf |-> m] @@ E0)
 
@@ -641,11 +658,15 @@ NewCont ==
     /\ \E k \in {"B", "F", "V"}, m \in 0..2, sp \in 0..1, way \in 0..3 :
         LET f == Fresh(m)  d == LowFree IN
         /\ FreshOk(m) /\ (k = "B" => sp = 0 /\ way = 0) /\ (way > 0 => sp = 0) /\ (k = "F" => way < 3)
-        /\ Commit([op |-> "new", d |-> d, s |-> k, i |-> m + sp, j |-> way, xs |-> f] @@ S0,
-                  [cs |-> Put(d, [k |-> k, v |-> f, cap |-> IF k = "F" /\ way \in {1, 2} /\ ~Zst THEN -1 ELSE NewCap(k, m + sp),
-                                  pr |-> IF k = "B" THEN 0 ELSE m + sp,
-                                  gen |-> 0, blk |-> IF m = 0 THEN 0 ELSE nblk, off |-> 0]),
-                   cr |-> Range(f), nf |-> m, nb |-> 1, inv |-> {d}] @@ E0)
+        \* from_iter_in: a panic of the iterator's next() drops what was collected so far, no container comes to exist
+        /\ \E p \in NoInj \cup (IF way = 1 THEN Inj("next", m + 1) ELSE {}) :
+            Commit([op |-> "new", d |-> d, s |-> k, i |-> m + sp, j |-> way, xs |-> f, pk |-> p[1], pn |-> p[2]] @@ S0,
+                   IF p[1] = "next"
+                   THEN [out |-> "inj", dr |-> Take(f, p[2] - 1), cr |-> Range(Take(f, p[2] - 1)), nf |-> m, inv |-> {d}] @@ E0
+                   ELSE [cs |-> Put(d, [k |-> k, v |-> f, cap |-> IF k = "F" /\ way \in {1, 2} /\ ~Zst THEN -1 ELSE NewCap(k, m + sp),
+                                        pr |-> IF k = "B" THEN 0 ELSE m + sp,
+                                        gen |-> 0, blk |-> IF m = 0 THEN 0 ELSE nblk, off |-> 0]),
+                         cr |-> Range(f), nf |-> m, nb |-> 1, inv |-> {d}] @@ E0)
 
 (* into_flattened: a container of [T; 2] built from fresh ids, flattened, put into a free slot *)
 Flatten ==
@@ -877,7 +898,9 @@ Stepped == Len(hist') = Len(hist) + 1
 NoMoveWhilePromised ==
     [][Stepped /\ Last.op \in InPlaceOps =>
           LET c == Last.c  C == cs[c]  C2 == cs'[c]
-              need == IF Last.op \in {"reserve", "reserve_exact"} THEN Len(C.v) + Last.i ELSE Len(C2.v) IN
+              need == IF Last.op \in {"reserve", "reserve_exact"} THEN Len(C.v) + Last.i
+                      ELSE IF Last.op = "extend" THEN Max(Len(C2.v), Len(C.v) + Last.i)     \* reserve(size_hint) comes first
+                      ELSE Len(C2.v) IN
           /\ (Last.e.out # "inj" /\ (need <= Max(Len(C.v), IF C.cap >= 0 THEN C.cap ELSE C.pr) \/ C.cap = -2))
                 => C2.gen = C.gen /\ Last.e.st
           /\ Last.e.st <=> C2.gen = C.gen
